@@ -204,6 +204,13 @@ def compare(sc, r, model, want_streams=True, want_ops=True, want_log=True, drive
             d = main_reactive_diff(sc, r, driver, model)
             if d:
                 diffs.append(d)
+        if driver is not None:
+            # the TRANSLATED thread programs (Generated/PyCoreThreads.lean, from the source through desugar_threads.py and
+            # translate_py.py), fed what the world handed the real threads, perform the real threads' operations
+            import thread_check as TC
+            tdiffs, _n = TC.check_session(common.REPO, r, driver, bundled=(), boards=session.board_settings(sc))
+            for d in tdiffs:
+                diffs.append(dict(d, what='thread-ops', thread=f'{d.get("thread")} ({d["what"]}: source -> sequential program over the world object)'))
         react = reactive_lines(sc, r, driver) if driver is not None else {}
         toks = thread_tokens(r, r.qmap)
         for p, line in react.items():
